@@ -100,10 +100,11 @@ prop('C07', 'p32', 'exploration',
      POOL_RULES + '. Invariant after EVERY step: every pool member equals its own model (so interference in any direction is caught where it happens), the caller\'s argument slice is unchanged, no function returns one of its inputs, '
      'and (structural, hook) no backing array is reachable from two live bitmaps unless both slots carry the copy-on-write flag. A second machine does the same for roaring64. '
      'Non-trivial = the history mutates a bitmap inside a chunk key that it has in common with a bitmap it was derived from / that was derived from it; distinct = FNV-64 of the op list',
-     T(8, 300, 16, 4000),
+     T(4, 300, 16, 4000),
      'model-based stateful property testing over a pool of bitmaps (rapid state machine) + structural sharing invariant via hook',
      'generated histories with a per-bitmap model; bounded length; no proof of absence',
-     'trusted: interval-set model; the verif hook exposes backing-array addresses and flags read-only', COMMON_ASSUME, run='^TestC07')
+     'trusted: interval-set model; the verif hook exposes backing-array addresses and flags read-only', COMMON_ASSUME,
+     parts=[dict(pkg='p32', run='^TestC07$'), dict(pkg='p64', run='^TestC07x64$')])
 
 prop('C09', 'p32', 'exploration',
      POOL_RULES + ', plus portable/frozen write->read round trips that replace a member; histories start from the empty bitmap. Invariant after every step, for every member: Validate()==nil AND independently of Validate: hook walk (ascending keys, no empty chunk, arrays <=4096, bitmaps >4096) '
@@ -147,3 +148,11 @@ prop('C08', 'pser', 'exploration',
      T(4, 1500, 16, 20000),
      'model-based stateful property testing with memory-protection instruments (read-only + guard pages + unmap after detach)',
      'generated histories; stray writes and dangling reads become faults', 'trusted: mprotect/munmap semantics; interval-set model; faults are only caught on the test goroutine (no Par* calls in this machine)', SER_ASSUME)
+
+prop('C17', 'p64', 'exploration',
+     'rapid state machine over a pool of <=5 roaring64 bitmaps with uint64 interval-set models: Add/CheckedAdd/AddInt, Remove/CheckedRemove, AddMany (bursts), AddRange/RemoveRange/Flip in place and static Flip with ranges that cross zero, one or two 2^32 borders (incl. whole buckets, ragged ends, start>=end), static and in-place And/Or/Xor/AndNot (incl. self), '
+     'AndCardinality/OrCardinality/Intersects/Equals, FastOr/FastAnd/ParOr (workers 0..7), Clone, SetCopyOnWrite, RunOptimize, CloneCopyOnWriteContainers; a query rule checks Minimum/Maximum/Contains/Rank/Select, an Iterator HasNext/Next/PeekNext/AdvanceIfNeeded program, ReverseIterator, ManyIterator buffer sequences, Values/Backward. '
+     'Buckets from {0,1,2,0x7FFFFFFF,0xFFFFFFFE,0xFFFFFFFF}; every member compared with its model after every step (whole-bucket members: when changed and every 8th step); any panic is a violation. Non-trivial = some member spans >=2 buckets and >=1 operation touched >=2 buckets; distinct = FNV-64 of the op list',
+     T(8, 120, 16, 2500),
+     'model-based stateful property testing against a uint64 interval-set model (rapid state machine)',
+     'generated histories compared step by step with a model', 'trusted: interval-set model; independent 64-bit decoder for whole-bucket contents', SER_ASSUME, run='^TestC17$')
